@@ -182,7 +182,9 @@ def check_neg(ctx, case):
     except Exception as e:
         finish(False)
         if has_empty:
-            ctx.fail("empty-transfer-syntax", f"{mode}:{sig.exc_key(e)}", f"a proposed context without transfer syntaxes makes negotiation raise ({via})\n{sig.exc_text(e)}")
+            if ctx.is_known("empty-transfer-syntax", sig.exc_key(e)):
+                ctx.exclude("case with an empty transfer-syntax list aborted by a known-finding exception (nothing else checkable)")
+            ctx.fail("empty-transfer-syntax", sig.exc_key(e), f"a proposed context without transfer syntaxes makes negotiation raise ({via})\n{sig.exc_text(e)}")
         else:
             ctx.fail("exception", f"{mode}:{sig.exc_key(e)}", f"negotiation raised ({via})\n{sig.exc_text(e)}")
         return
@@ -211,6 +213,7 @@ def check_neg(ctx, case):
         reply_items[uid] = (r.scu_role, r.scp_role)
 
     outcomes = {}
+    claimed_abs = set()
     accepted_with_proposal = False
     for cid in want_ids:
         e, c = exp[cid], got[cid]
@@ -234,6 +237,25 @@ def check_neg(ctx, case):
                 continue
         if len(tss) == 0:
             continue  # out-of-domain context: handled without exception and not accepted - nothing else asserted
+        if e["mode"] == "exact" and unrestricted:
+            # Label for ONE root cause: the implementation hands a context of a known public non-storage class to the
+            # unrestricted storage service (accepts it with the first proposed transfer syntax) although the model negotiates
+            # it normally. The key carries the abstract syntax, so any other class being claimed is a different signature.
+            deviates = c.result != e["result"] or (
+                c.result == 0 and (ts_got != [e["ts"]] or (bool(c.as_scu), bool(c.as_scp)) != (e["ac_scu"], e["ac_scp"]))
+            )
+            claimed_roles = (True, True) if p is None else (p[1], p[0])  # what the storage-service branch is seen to assign
+            if deviates and c.result == 0 and ts_got == [tss[0]] and (bool(c.as_scu), bool(c.as_scp)) == claimed_roles:
+                claimed_abs.add(ab)
+                if ctx.is_known("claimed", f"unrestricted:claimed-non-storage-class:{ab}"):
+                    ctx.exclude("context of a non-storage class claimed by the unrestricted storage service (known finding); other contexts of the case checked")
+                ctx.fail(
+                    "claimed",
+                    f"unrestricted:claimed-non-storage-class:{ab}",
+                    f"{where}: accepted as if it belonged to the storage service (result 0, ts {ts_got}, as_scu={c.as_scu} as_scp={c.as_scp}); "
+                    f"model: result {e['result']}" + (f", ts [{e['ts']}], as_scu={e['ac_scu']} as_scp={e['ac_scp']}" if e["result"] == 0 else ""),
+                )
+                continue
         if e["mode"] == "exact":
             if c.result != e["result"]:
                 ctx.fail("result", f"{mode}:want={e['result']}:got={c.result}", f"{where}: result {c.result}, model says {e['result']}")
@@ -286,6 +308,12 @@ def check_neg(ctx, case):
             ctx.fail("reply", f"{mode}:for-unaccepted-abstract-syntax", f"reply item {r} for {uid} none of whose contexts was accepted")
             continue
         kind, want = exp_replies[uid]
+        if uid in claimed_abs:
+            continue
+        if kind == "exact" and unrestricted and r != want and r == p:
+            # reply echoes the proposal: the storage-service treatment of a class the model negotiates normally (see above)
+            ctx.fail("claimed", f"unrestricted:claimed-non-storage-class:{uid}", f"reply item {r} for {uid} echoes the proposal {p}; model: {want} (acceptor roles {accepts.get(uid)})")
+            continue
         if kind == "exact":
             if want is None:
                 ctx.fail("reply", f"{mode}:unexpected:proposal={_pk(p)}:accepts={_ak(accepts.get(uid, (None, None)))}", f"reply item {r} for {uid}; model: no reply (acceptor roles {accepts.get(uid)})")
@@ -295,8 +323,12 @@ def check_neg(ctx, case):
             if r == (False, False) and p != (False, False):
                 ctx.fail("reply", "unrestricted:rejects-both-roles-of-accepted-context", f"reply item {r} for accepted {uid}, proposal {p}")
     for uid, (kind, want) in sorted(exp_replies.items()):
-        if kind == "exact" and want is not None and uid not in reply_items and not has_empty:
-            ctx.fail("reply", f"{mode}:missing:proposal={_pk(roles.get(uid))}:accepts={_ak(accepts[uid])}", f"no reply item for {uid}; documented table gives {want}")
+        if kind == "exact" and want is not None and uid not in reply_items and uid not in claimed_abs:
+            if unrestricted:
+                # in this mode the signature is deliberately coarse: one root cause (replies of normally negotiated contexts lost)
+                ctx.fail("reply", "unrestricted:missing-for-normally-negotiated-context", f"no reply item for {uid} (proposal {roles.get(uid)}, acceptor roles {accepts[uid]}); documented table gives {want}")
+            else:
+                ctx.fail("reply", f"{mode}:missing:proposal={_pk(roles.get(uid))}:accepts={_ak(accepts[uid])}", f"no reply item for {uid}; documented table gives {want}")
 
     if any(len(v) > 1 for v in outcomes.values()):
         classes.add("duplicate-abstract-different-outcomes")
@@ -314,7 +346,7 @@ CHECKS = {"neg": check_neg}
 
 
 # ----------------------------------------------------------------------------------------- generation
-def strategy(max_cx, empty_ts=False):
+def strategy(max_cx, empty_ts=False, min_cx=0):
     from hypothesis import strategies as st
 
     ab = st.sampled_from(ABSTRACT_POOL)
@@ -324,8 +356,7 @@ def strategy(max_cx, empty_ts=False):
 
     @st.composite
     def case(draw):
-        n = draw(st.integers(0, max_cx))
-        ids = draw(st.lists(st.integers(0, 127).map(lambda k: 2 * k + 1), min_size=n, max_size=n, unique=True))
+        ids = draw(st.lists(st.integers(0, 127).map(lambda k: 2 * k + 1), min_size=min_cx, max_size=max_cx, unique=True))
         # bias the proposed abstract syntaxes towards a small subset so that duplicates and role hits occur
         sub = draw(st.lists(ab, min_size=1, max_size=5, unique=True))
         proposed = [[i, draw(st.sampled_from(sub)), draw(ts_prop)] for i in ids]
@@ -375,9 +406,9 @@ def run(ctx):
     RR.selfcheck()
     if ctx.shard == 0:
         ctx.each("neg", role_matrix())
-    n = 1500 if ctx.quick else 6000
+    n = 2500 if ctx.quick else 6000
     ctx.hyp("neg", strategy(12), n)
-    ctx.hyp("neg", strategy(4), n)
+    ctx.hyp("neg", strategy(4, min_cx=1), n)
     ctx.hyp("neg", strategy(6, empty_ts=True), n // 3)
     if not ctx.quick:
         ctx.hyp("neg", strategy(128), 150)
